@@ -23,6 +23,8 @@ RULE = ('base programs (instance and class-level operations, hostile output alia
 ASSUMPTIONS = ['duration bracket: [time inside the operation body - 5 ms, wall time around the decorated call + 5 ms], same clock (time.time)',
                'timestamp bracket: harness utcnow() before/after the call', 'exception-in-operation is only judged for runs that were not cut short']
 
+import contextlib
+
 EPS = 0.005
 TERMINATIONS = [None, 'raise_user', 'raise_interrupt', 'body_raise_user', 'body_raise_interrupt']
 
@@ -64,7 +66,8 @@ def judge_metadata(ctx, res, md, w, extractor):
     ts = md.get(TR.RECORDED_AT)
     try:
         t = datetime.datetime.strptime(ts, '%Y-%m-%d %H:%M:%S.%f') if '.' in ts else datetime.datetime.strptime(ts, '%Y-%m-%d %H:%M:%S')
-        if not (res.utc_before - datetime.timedelta(seconds=EPS) <= t <= res.utc_after + datetime.timedelta(seconds=EPS)):
+        lo = res.utc_before.replace(microsecond=0) if w.get('coarse_clock') else res.utc_before       # (a clock that ticks in whole seconds)
+        if not (lo - datetime.timedelta(seconds=EPS) <= t <= res.utc_after + datetime.timedelta(seconds=EPS)):
             ctx.violation('recording timestamp %s outside the UTC bracket of the run' % ts, w)
     except Exception:
         ctx.violation('recording timestamp %r is not a UTC timestamp' % (ts,), w)
@@ -96,7 +99,38 @@ def judge_metadata(ctx, res, md, w, extractor):
     return interrupted
 
 
+@contextlib.contextmanager
+def coarse_clock(on):
+    """The host's clock ticks in whole seconds (a coarse / simulated / frozen clock): utcnow() never has a fraction."""
+    if not on:
+        yield
+        return
+    import playback.tape_recorder as tr
+    real = tr.datetime
+
+    class WholeSeconds(real):
+        @classmethod
+        def utcnow(cls):
+            return real.utcnow().replace(microsecond=0)
+
+        @classmethod
+        def now(cls, tz=None):
+            return real.now(tz).replace(microsecond=0)
+    tr.datetime = WholeSeconds
+    try:
+        yield
+    finally:
+        tr.datetime = real
+
+
 def run_program(ctx, prog, rng, pidx):
+    with coarse_clock(pidx % 5 == 2):
+        if pidx % 5 == 2:
+            ctx.count('programs_on_a_clock_that_ticks_in_whole_seconds')
+        return _run_program(ctx, prog, rng, pidx)
+
+
+def _run_program(ctx, prog, rng, pidx):
     from playback.tape_recorder import TapeRecorder
     from playback.studio.recordings_lookup import find_matching_recording_ids, RecordingLookupProperties
     from vlib.cassettes import open_box
@@ -154,7 +188,7 @@ def run_program(ctx, prog, rng, pidx):
                                  cls_name='GenOp%d%s' % (prog['uid'], 'X' if bk else 'N'), caller_context=cc)
                 builts[bk] = res.live
                 w = {'gen_seed': prog['gen_seed'], 'program': describe(prog), 'faults': fr.faults_json(faults), 'extractor': extractor, 'cassette': kind,
-                     'caller_context': cc, 'zone': __import__('os').environ.get('TZ')}
+                     'caller_context': cc, 'zone': __import__('os').environ.get('TZ'), 'coarse_clock': pidx % 5 == 2}
                 saves = [e for e in res.spy_events if e[0] == 'save']
                 ctx.case({'p': prog['gen_seed'], 'f': fr.faults_json(faults), 'x': extractor}, nontrivial=bool(saves))
                 if len(saves) != 1:
@@ -245,9 +279,6 @@ def gen_c18_program(seed):
         p['body'].insert(rng.randrange(len(p['body']) + 1) if p['body'] and p['body'][-1]['op'] not in ('return', 'raise') else 0,
                          {'op': 'sleep', 's': rng.choice([0.005, 0.01, 0.02])})
     return p
-
-
-import contextlib
 
 
 @contextlib.contextmanager
